@@ -559,3 +559,22 @@ func VerifC03Strings() {
 	zzverif.Assert(len(vx.queue) <= 1, "at-most-one-event-per-control-string")
 	zzverif.Reach("end")
 }
+
+// VerifC03LateReply: a cursor position query whose reply does not arrive in time gives up
+// (virtual time fires its 50 ms timer); the reply arriving late, or a modified F3 key that
+// looks like one, then neither wedges the input side nor is lost: it is decoded as input.
+func VerifC03LateReply() {
+	vx, _ := verifRenderVaxis(4, 3)
+	vx.queue = make(chan Event, 8)
+	vx.chCursorPos = make(chan [2]int)
+	row, col := vx.CursorPosition() // nobody answers
+	zzverif.Assert(row == -1 && col == -1, "unanswered-query-times-out")
+	r, c := int(zzverif.Byte("r")), int(zzverif.Byte("c"))
+	zzverif.Terminates(3000)
+	vx.handleSequence(ansi.CSI{Final: 'R', Parameters: [][]int{{r}, {c}}})
+	// not swallowed as an answer nobody waits for, and the loop goes on
+	zzverif.Assert(len(vx.queue) == 1, "late-reply-is-delivered-as-input")
+	vx.handleSequence(ansi.Print{Grapheme: "x", Width: 1})
+	zzverif.Assert(len(vx.queue) == 2, "input-loop-continues-after-a-late-reply")
+	zzverif.Reach("end")
+}
